@@ -80,7 +80,7 @@ theorem evaluateRoute_ext (e r) : Rel extPre (evaluateRoute e r) := by
   ext_walk []
 
 theorem stageNext_ext (k idx e o acc) : Rel extPre (stageNext k idx e o acc) := by
-  unfold stageNext
+  unfold stageNext stageTarget
   ext_walk [evaluateRoute_ext _ _]
 
 theorem fireTransition_ext (k idx ec acc e) : Rel extPre (fireTransition E k idx ec acc e) := by
@@ -96,7 +96,7 @@ theorem makeTaskContext_ext (k idx r) : Rel extPre (makeTaskContext k idx r) := 
   ext_walk []
 
 theorem ensureRecord_ext (k s r ev) : Rel extPre (ensureRecord E k s r ev) := by
-  unfold ensureRecord
+  unfold ensureRecord firstRecord recordFromStaged
   ext_walk [addTaskState_ext E _ _ _]
 
 theorem noteEvent_ext (k s ev) : Rel extPre (noteEvent k s ev) := by
